@@ -91,10 +91,10 @@ pub fn raw_string_literal(input: Input<'_>) -> ParserResult<'_, &'_ str> {
 fn quadruple(input: Input<'_>) -> ParserResult<'_, char> {
     map_res(
         in_braces((
-            terminated(skip_ws(u8), skip_ws(char(COMMA))),
-            terminated(skip_ws(u8), skip_ws(char(COMMA))),
-            terminated(skip_ws(u8), skip_ws(char(COMMA))),
-            skip_ws(u8),
+            terminated(skip_ws_and_comments(u8), skip_ws_and_comments(char(COMMA))),
+            terminated(skip_ws_and_comments(u8), skip_ws_and_comments(char(COMMA))),
+            terminated(skip_ws_and_comments(u8), skip_ws_and_comments(char(COMMA))),
+            skip_ws_and_comments(u8),
         )),
         |(group, plane, row, cell)| {
             if group > 0 {
